@@ -350,6 +350,7 @@ def table : List (String × Msg) := [
   ("keyUpdate", { fmt := keyUpdate }),
   ("compressedCertificate", { fmt := compressedCertificate, post := postCompressed }),
   ("sessionTicketPayload", { fmt := sessionTicketPayload, exact := true }),
+  ("ssl2Finished", { fmt := rest, exact := true }),
   ("certificateEntry", { fmt := certificateEntry }),
   ("keyShareEntry", { fmt := keyShareEntry }),
   ("pskIdentity", { fmt := pskIdentity }),
